@@ -24,6 +24,11 @@ func init() {
 	runner.Register("C05", runner.Scenario{Name: "batch-preempt", Options: func(string) simrt.Options {
 		return simrt.Options{MaxSteps: 60000, RotateMaps: true, ParkPermille: 15}
 	}, Body: func(c *runner.Ctx) { batchBody(c) }})
+	// the same workload under the limiter property: callers hold tokens, Many
+	// runs on their goroutines, waiters release theirs temporarily
+	runner.Register("C20", runner.Scenario{Name: "batch-under-limiter", Options: func(string) simrt.Options {
+		return simrt.Options{MaxSteps: 60000, RotateMaps: true, ParkPermille: 10}
+	}, Body: func(c *runner.Ctx) { batchBody(c) }})
 }
 
 // arg is the unique argument of one Invoke call.
@@ -64,6 +69,11 @@ type batchWorld struct {
 	invokes []*invokeRec
 	faulty  bool
 	cancels int
+	// limit > 0: every caller holds a token of a concurrency limiter of that
+	// size (one limiter per batching context) while it invokes; running counts
+	// the Many calls in progress per limiter
+	limit   int
+	running map[int]int
 }
 
 var errMany = errors.New("many failed")
@@ -75,6 +85,19 @@ func (w *batchWorld) many(shardMod int) func(ctx context.Context, args []interfa
 			mc.args = append(mc.args, x.(arg))
 		}
 		w.calls = append(w.calls, mc)
+		if w.limit > 0 && len(mc.args) > 0 {
+			// Many is the work the limiter bounds: it runs on the goroutine of a
+			// caller that holds a token
+			ci := mc.args[0].bctx / 10
+			w.running[ci]++
+			defer func() { w.running[ci]-- }()
+			if w.running[ci] > w.limit {
+				w.c.ViolateFor("C20,C05", "more-many-calls-than-limit", "%d calls of Many are running at the same time under a concurrency limiter of %d whose tokens their callers hold", w.running[ci], w.limit)
+			}
+			if w.running[ci] == w.limit {
+				w.c.Probe("many-calls-at-the-limit")
+			}
+		}
 		if len(args) >= 2 {
 			w.c.NonTrivial()
 			w.c.Probe("batch-of-2+")
@@ -192,6 +215,7 @@ func batchBody(c *runner.Ctx) {
 	}
 	nCtx := 1 + c.Choose(2, "contexts")
 	limit := []int{0, 0, 1, 2, 3}[c.Choose(5, "limiter")]
+	w.limit, w.running = limit, map[int]int{}
 	var roots []context.Context
 	var rootCancels []context.CancelFunc
 	for i := 0; i < nCtx; i++ {
@@ -287,21 +311,21 @@ func batchBody(c *runner.Ctx) {
 	seen := map[int]*manyCall{}
 	for i, mc := range w.calls {
 		if maxSize > 0 && len(mc.args) > maxSize {
-			c.Violate("batch-exceeds-maxsize", "Many call %d received %d arguments, MaxSize is %d", i+1, len(mc.args), maxSize)
+			c.ViolateFor("C05", "batch-exceeds-maxsize", "Many call %d received %d arguments, MaxSize is %d", i+1, len(mc.args), maxSize)
 		}
 		if len(mc.args) == 0 {
-			c.Violate("empty-batch", "Many call %d received no arguments", i+1)
+			c.ViolateFor("C05", "empty-batch", "Many call %d received no arguments", i+1)
 			continue
 		}
 		for _, a := range mc.args {
 			if a.shard != mc.args[0].shard {
-				c.Violate("batch-mixes-shards", "Many call %d mixes shards: %v", i+1, mc.args)
+				c.ViolateFor("C05", "batch-mixes-shards", "Many call %d mixes shards: %v", i+1, mc.args)
 			}
 			if a.bctx != mc.args[0].bctx {
-				c.Violate("batch-mixes-contexts-or-funcs", "Many call %d mixes batching contexts / Funcs: %v", i+1, mc.args)
+				c.ViolateFor("C05", "batch-mixes-contexts-or-funcs", "Many call %d mixes batching contexts / Funcs: %v", i+1, mc.args)
 			}
 			if prev, dup := seen[a.id]; dup {
-				c.Violate("argument-fetched-twice", "argument %v was handed to Many twice (calls at #%d and #%d)", a, prev.seq, mc.seq)
+				c.ViolateFor("C05", "argument-fetched-twice", "argument %v was handed to Many twice (calls at #%d and #%d)", a, prev.seq, mc.seq)
 			}
 			seen[a.id] = mc
 		}
@@ -312,18 +336,18 @@ func batchBody(c *runner.Ctx) {
 				// the caller never got to this Invoke (it is behind one that hangs)
 				continue
 			}
-			c.Violate("invoke-never-returned", "Invoke(%v) did not return within one simulated minute", r.a)
+			c.ViolateFor("C05", "invoke-never-returned", "Invoke(%v) did not return within one simulated minute", r.a)
 			continue
 		}
 		mc := seen[r.a.id]
 		if r.err == nil {
 			switch {
 			case mc == nil:
-				c.Violate("result-without-fetch", "Invoke(%v) returned %v but its argument was never handed to Many", r.a, r.res)
+				c.ViolateFor("C05", "result-without-fetch", "Invoke(%v) returned %v but its argument was never handed to Many", r.a, r.res)
 			case r.res != interface{}(f(r.a)):
-				c.Violate("wrong-result", "Invoke(%v) returned %v, want %v (batch %v, outcome %s)", r.a, r.res, f(r.a), mc.args, mc.outcome)
+				c.ViolateFor("C05", "wrong-result", "Invoke(%v) returned %v, want %v (batch %v, outcome %s)", r.a, r.res, f(r.a), mc.args, mc.outcome)
 			case mc.outcome != "ok":
-				c.Violate("result-from-failed-batch", "Invoke(%v) returned a result although its Many call ended as %s", r.a, mc.outcome)
+				c.ViolateFor("C05", "result-from-failed-batch", "Invoke(%v) returned a result although its Many call ended as %s", r.a, mc.outcome)
 			}
 			continue
 		}
@@ -352,13 +376,13 @@ func batchBody(c *runner.Ctx) {
 			if isCtxErr && mc == nil {
 				key = "stale-context-error"
 			}
-			c.Violate(key, "Invoke(%v) returned error %q which is neither the error of its own Many call (outcome %s) nor a context error explained by a cancellation of its own context or of a call it was batched with", r.a, r.err, out)
+			c.ViolateFor("C05", key, "Invoke(%v) returned error %q which is neither the error of its own Many call (outcome %s) nor a context error explained by a cancellation of its own context or of a call it was batched with", r.a, r.err, out)
 		}
 	}
 	if w.cancels == 0 {
 		for _, r := range w.invokes {
 			if r.done && seen[r.a.id] == nil {
-				c.Violate("argument-never-fetched", "Invoke(%v) returned but its argument was never handed to Many although no context was cancelled", r.a)
+				c.ViolateFor("C05", "argument-never-fetched", "Invoke(%v) returned but its argument was never handed to Many although no context was cancelled", r.a)
 			}
 		}
 	}
